@@ -577,6 +577,60 @@ fn validate(der: &[u8], kind: Kind, issuer: Option<&ResourceCert>, strict: bool,
             },
         })
     })??;
+    // The clock-based variants (validate_*, verify_* without _at) are the same functions at
+    // Time::now(): asked whenever the certificate's window ends are more than a day away from
+    // the present, they must give the verdict the *_at variants give for Time::now().
+    {
+        let (nb, na) = (alt_cert.validity().not_before().timestamp(), alt_cert.validity().not_after().timestamp());
+        let t = chrono::Utc::now().timestamp();
+        if (nb - t).abs() > 86_400 && (na - t).abs() > 86_400 {
+            let tal = || TalInfo::from_name("c01".into()).into_arc();
+            let s = |e: &dyn std::fmt::Display| e.to_string();
+            let pairs = no_panic("clock-based validation", || -> Result<Vec<(&'static str, Result<(), String>, Result<(), String>)>, Fail> {
+                let c = &alt_cert;
+                Ok(match kind {
+                    Kind::Ta => vec![
+                        ("validate_ta", c.clone().validate_ta(tal(), strict).map(|_| ()).map_err(|e| s(&e)), c.clone().validate_ta_at(tal(), strict, Time::now()).map(|_| ()).map_err(|e| s(&e))),
+                        ("verify_ta", c.clone().verify_ta(tal(), strict).map(|_| ()).map_err(|e| s(&e)), c.clone().verify_ta_at(tal(), strict, Time::now()).map(|_| ()).map_err(|e| s(&e))),
+                        ("verify_ta_ref", c.verify_ta_ref(strict).map_err(|e| s(&e)), c.verify_ta_ref_at(strict, Time::now()).map_err(|e| s(&e))),
+                    ],
+                    Kind::Ca => {
+                        let i = issuer.ok_or_else(need_issuer)?;
+                        vec![
+                            ("validate_ca", c.clone().validate_ca(i, strict).map(|_| ()).map_err(|e| s(&e)), c.clone().validate_ca_at(i, strict, Time::now()).map(|_| ()).map_err(|e| s(&e))),
+                            ("verify_ca", c.clone().verify_ca(i, strict).map(|_| ()).map_err(|e| s(&e)), c.clone().verify_ca_at(i, strict, Time::now()).map(|_| ()).map_err(|e| s(&e))),
+                        ]
+                    }
+                    Kind::Ee => {
+                        let i = issuer.ok_or_else(need_issuer)?;
+                        vec![
+                            ("validate_ee", c.clone().validate_ee(i, strict).map(|_| ()).map_err(|e| s(&e)), c.clone().validate_ee_at(i, strict, Time::now()).map(|_| ()).map_err(|e| s(&e))),
+                            ("verify_ee", c.clone().verify_ee(i, strict).map(|_| ()).map_err(|e| s(&e)), c.clone().verify_ee_at(i, strict, Time::now()).map(|_| ()).map_err(|e| s(&e))),
+                        ]
+                    }
+                    Kind::DetachedEe => {
+                        let i = issuer.ok_or_else(need_issuer)?;
+                        vec![(
+                            "validate_detached_ee",
+                            c.clone().validate_detached_ee(i, strict).map(|_| ()).map_err(|e| s(&e)),
+                            c.clone().validate_detached_ee_at(i, strict, Time::now()).map(|_| ()).map_err(|e| s(&e)),
+                        )]
+                    }
+                    Kind::Router => {
+                        let i = issuer.ok_or_else(need_issuer)?;
+                        vec![
+                            ("validate_router", c.validate_router(i, strict).map_err(|e| s(&e)), c.validate_router_at(i, strict, Time::now()).map_err(|e| s(&e))),
+                            ("verify_router", c.verify_router(i, strict).map_err(|e| s(&e)), c.verify_router_at(i, strict, Time::now()).map_err(|e| s(&e))),
+                        ]
+                    }
+                })
+            })??;
+            for (what, by_clock, at_now) in pairs {
+                ensure_sig!(by_clock.is_ok() == at_now.is_ok(), "c01:entry-points-disagree",
+                    "{} (evaluation time = the clock) says {:?}, the _at variant at Time::now() says {:?}", what, by_clock, at_now);
+            }
+        }
+    }
     match (&res, &alt) {
         (Ok(a), Ok(b)) => {
             if let (Some(a), Some(b)) = (a, b) {
